@@ -283,7 +283,7 @@ CORPUS = [
 def run(ctx: Ctx) -> int:
     ctx.prove(["Reduino.Props.C19"])
     mods = hostrun.load_actuators()
-    n = ctx.n(400, 6000)
+    n = ctx.n(1200, 6000)
     lines = list(CORPUS)
     for i in range(n):
         kind = ["led", "rgb", "servo", "motor"][i % 4]
@@ -314,7 +314,7 @@ def search(ctx: Ctx):
     mods = hostrun.load_actuators()
     for d in ctx.tie_diffs:
         oracle(ctx, mods, d["request"])
-    for i in range(ctx.n(2000, 20000)):
+    for i in range(ctx.n(5000, 20000)):
         if ctx.failures:
             return
         kind = ["led", "rgb", "servo", "motor"][i % 4]
